@@ -15,6 +15,10 @@
  *    closes it).  `corrupt`: 0 none, 1 flip one bit of the HMAC, 2 stale nonceEven (zeros), 3 wrong secret.
  *    `verified` (may be NULL): 1 response HMAC good, 0 bad, -1 no/unparsable trailer (e.g. the command failed).
  *  - When a command fails the TPM terminates the session (unless the request did not parse): the wrappers clear s->live.
+ *  - t12c_create_wrap_key takes the key usage (T12C_KEY_STORAGE / T12C_KEY_SIGNING); t12c_establish_transport_attr takes
+ *    the transAttributes (LOG / EXCLUSIVE); t12c_take_ownership_x has corrupt/verified; t12c_nv_lock sets nvLocked.
+ *  - Commands wrapped for t12c_execute_transport are built by the caller in a second Buf (t12_begin, parameters,
+ *    t12c_auth_append for AUTH1, then b_put32(ib, 2, ib->n)); an inner AUTH1 answer is checked with t12c_auth_verify(inner_out...).
  *
  * FACTS TAKEN FROM THE CODE (they differ from folklore)
  *  - TPM_KH_TRANSPORT is 0x40000003 (0x40000004 is TPM_KH_OPERATOR); TPM_ALG_MGF1 is 7.
@@ -61,10 +65,13 @@ static T12cWorld g12c;
 #define T12C_ET_OWNER 0x0002
 #define T12C_ET_COUNTER 0x000A
 #define T12C_ET_NV 0x000B
+#define T12C_KEY_SIGNING 0x0010
+#define T12C_KEY_STORAGE 0x0011
 #define T12C_NV_OWNERWRITE 0x00000002u
 #define T12C_NV_AUTHWRITE 0x00000004u
 #define T12C_NV_OWNERREAD 0x00020000u
 #define T12C_NV_AUTHREAD 0x00040000u
+#define T12C_TRANSPORT_LOG 0x00000002u
 #define T12C_TRANSPORT_EXCLUSIVE 0x00000004u
 
 /* ---------- hashing ---------- */
@@ -361,14 +368,15 @@ static uint32_t t12c_counter_release_owner(Buf *b, T12cSess *s, uint32_t countID
 }
 
 /* ---------- keys under the SRK ---------- */
-/* RSA-2048 non-migratable storage key with usageAuth = keyAuth; *blob is malloc()ed (the TPM_KEY12 to hand to LoadKey2) */
-static uint32_t t12c_create_wrap_key(Buf *b, const uint8_t keyAuth[20], uint8_t **blob, uint32_t *bloblen, int corrupt, int *verified) {
+/* RSA-2048 non-migratable key with usageAuth = keyAuth; usage T12C_KEY_STORAGE (OAEP) or T12C_KEY_SIGNING (PKCS1v15-SHA1);
+ * *blob is malloc()ed (the TPM_KEY12 to hand to LoadKey2) */
+static uint32_t t12c_create_wrap_key(Buf *b, uint16_t usage, const uint8_t keyAuth[20], uint8_t **blob, uint32_t *bloblen, int corrupt, int *verified) {
     T12cSess s; uint8_t eu[20], em[20]; Rsp r; if (verified) *verified = -1; if (blob) *blob = NULL; if (bloblen) *bloblen = 0;
     uint32_t rc = t12c_osap(b, &s, T12C_ET_KEYHANDLE, T12C_KH_SRK, g12c.srkAuth); if (rc) return rc;
     t12c_rand(s.nonceOdd, 20);                                   /* nonceOdd keys the second ADIP secret: fixed before the parameters */
     t12c_adip(eu, &s, s.nonceEven, keyAuth); t12c_adip(em, &s, s.nonceOdd, keyAuth);
     t12_begin(b, T12_TAG1, T12C_ORD_CreateWrapKey); b_u32(b, T12C_KH_SRK); b_bytes(b, eu, 20); b_bytes(b, em, 20);
-    t12c_key12(b, 0x0011, 0, 1, 0x0003, 0x0001);
+    t12c_key12(b, usage, 0, 1, usage == T12C_KEY_SIGNING ? 0x0001 : 0x0003, usage == T12C_KEY_SIGNING ? 0x0002 : 0x0001);
     rc = t12c_finish1(b, "CreateWrapKey", 4, 0, &s, NULL, 0, corrupt, 1, &r, verified);
     if (rc) return rc;
     if (r.len < 10 + 41 + 20) return T12C_BAD;
@@ -398,16 +406,20 @@ static uint32_t t12c_in_handles(uint32_t ord) {
 static uint32_t t12c_out_handles(uint32_t ord) {
     return ord == 0x0a ? 24 : (ord == 0x0b || ord == 0x11) ? 44 : (ord == 0x41 || ord == 0xb5 || ord == 0xb7 || ord == 0xb9) ? 4 : 0;
 }
-static uint32_t t12c_establish_transport(Buf *b, T12cSess *trans, int exclusive) {
+/* attrs: 0, T12C_TRANSPORT_LOG and/or T12C_TRANSPORT_EXCLUSIVE (TPM_TRANSPORT_ENCRYPT is refused under TPM_KH_TRANSPORT) */
+static uint32_t t12c_establish_transport_attr(Buf *b, T12cSess *trans, uint32_t attrs) {
     memset(trans, 0, sizeof *trans); t12c_rand(trans->secret, 20);
     t12_begin(b, T12_TAG0, 0xE6); b_u32(b, T12C_KH_TRANSPORT);
-    b_u16(b, 0x001E); b_u32(b, exclusive ? T12C_TRANSPORT_EXCLUSIVE : 0); b_u32(b, 7); b_u16(b, 1);   /* TPM_ALG_MGF1, TPM_ES_NONE (unused without ENCRYPT) */
+    b_u16(b, 0x001E); b_u32(b, attrs); b_u32(b, 7); b_u16(b, 1);   /* TPM_ALG_MGF1, TPM_ES_NONE (both unused without ENCRYPT) */
     b_u32(b, 20); b_bytes(b, trans->secret, 20);
     Rsp r = t12c_run(b, "EstablishTransport");
     if (r.rc) return r.rc;
     if (r.len != 10 + 4 + 4 + 32 + 20) return T12C_BAD;
     trans->handle = g32(r.p + 10); memcpy(trans->nonceEven, r.p + 50, 20); trans->live = 1;
     return 0;
+}
+static uint32_t t12c_establish_transport(Buf *b, T12cSess *trans, int exclusive) {
+    return t12c_establish_transport_attr(b, trans, exclusive ? T12C_TRANSPORT_EXCLUSIVE : 0);
 }
 /* `wrapped` is a complete inner command (its paramSize already set); it may be malformed: the digests are taken over the
  * bytes that exist.  *inner_out points into the response buffer.  *verified is about the OUTER (transport) HMAC. */
@@ -471,6 +483,14 @@ static uint32_t t12c_st_wrap(Buf *b, T12cSess *tr_, const uint8_t *w, uint32_t n
     if (!tr_->live) { uint32_t rc = t12c_establish_transport(b, tr_, 0); if (rc) { T12C_CHECK(0, "re-EstablishTransport rc=0x%x", rc); return rc; } }
     return t12c_execute_transport(b, tr_, w, n, 1, 0, in, v);
 }
+/* TPM_CAP_HANDLE for keys (1), authorization sessions (2), transport sessions (4): nothing may be left open */
+static void t12c_st_noleak(Buf *b, const char *when) {
+    for (uint32_t rt = 1; rt <= 4; rt <<= 1) {
+        t12_begin(b, T12_TAG0, 0x65); b_u32(b, 0x14); b_u32(b, 4); b_u32(b, rt);
+        Rsp r = t12c_run(b, "GetCapability(handles)");
+        T12C_CHECK(r.rc == 0 && r.len == 16 && g16(r.p + 14) == 0, "no leaked handles of resource type %u %s: rc=0x%x count=%d", rt, when, r.rc, r.len >= 16 ? g16(r.p + 14) : -1);
+    }
+}
 static int t12c_selftest(void) {
     Buf b = {0}, ib = {0}; uint32_t rc, rc2; int v; const uint8_t *d; uint32_t dl;
     uint8_t owner[20], srk[20], aAuth[20], cAuth[20], c2Auth[20], kAuth[20], ekn[256], w1[8] = {1, 2, 3, 4, 5, 6, 7, 8}, w2[8] = {9, 8, 7, 6, 5, 4, 3, 2};
@@ -526,13 +546,26 @@ static int t12c_selftest(void) {
     rc = t12c_counter_release(&b, NULL, c2, c2Auth, 0, &v); rc2 = t12c_counter_read(&b, c2, &val); T12C_CHECK(rc == 0 && v == 1 && rc2 != 0, "ReleaseCounter rc=0x%x verified=%d, ReadCounter afterwards rc=0x%x", rc, v, rc2);
     /* keys */
     uint8_t *blob = NULL; uint32_t bl = 0, kh = 0;
-    rc = t12c_create_wrap_key(&b, kAuth, &blob, &bl, 0, &v); T12C_CHECK(rc == 0 && v == 1 && bl > 256, "CreateWrapKey rc=0x%x bloblen=%u verified=%d", rc, bl, v);
+    rc = t12c_create_wrap_key(&b, T12C_KEY_STORAGE, kAuth, &blob, &bl, 0, &v); T12C_CHECK(rc == 0 && v == 1 && bl > 256, "CreateWrapKey(storage) rc=0x%x bloblen=%u verified=%d", rc, bl, v);
     if (rc == 0) {
         rc = t12c_load_key2(&b, NULL, blob, bl, &kh, 0, &v); T12C_CHECK(rc == 0 && v == 1, "LoadKey2 rc=0x%x handle=0x%x verified=%d", rc, kh, v);
         rc = t12c_osap(&b, &sc, T12C_ET_KEYHANDLE, kh, kAuth); T12C_CHECK(rc == 0, "OSAP(loaded key) rc=0x%x", rc);
         rc = t12c_flush_specific(&b, sc.handle, 2); rc2 = t12c_flush_specific(&b, kh, 1); T12C_CHECK(rc == 0 && rc2 == 0, "FlushSpecific(auth session, key) rc=0x%x,0x%x", rc, rc2);
     }
+    free(blob); blob = NULL;
+    /* an AUTH2 command: TPM_CertifyKey(certHandle = keyHandle = a signing key), two OIAP sessions, one parameter digest */
+    rc = t12c_create_wrap_key(&b, T12C_KEY_SIGNING, kAuth, &blob, &bl, 0, &v); T12C_CHECK(rc == 0 && v == 1, "CreateWrapKey(signing) rc=0x%x verified=%d", rc, v);
+    if (rc == 0 && t12c_load_key2(&b, NULL, blob, bl, &kh, 0, &v) == 0 && t12c_oiap(&b, &s) == 0 && t12c_oiap(&b, &so) == 0) {
+        memcpy(s.secret, kAuth, 20); memcpy(so.secret, kAuth, 20);
+        t12_begin(&b, T12_TAG2, 0x32); b_u32(&b, kh); b_u32(&b, kh); { uint8_t ar[20]; t12c_rand(ar, 20); b_bytes(&b, ar, 20); }
+        size_t pe = b.n; t12c_auth_append_at(&b, 8, pe, &s, 0, 0, 0); t12c_auth_append_at(&b, 8, pe, &so, 0, 0, 0);
+        Rsp r = t12c_run(&b, "CertifyKey"); int v1 = t12c_auth_verify(&r, 0x32, 0, &s, 2, 0), v2 = t12c_auth_verify(&r, 0x32, 0, &so, 2, 1);
+        T12C_CHECK(r.rc == 0 && v1 == 1 && v2 == 1 && !s.live && !so.live, "CertifyKey (AUTH2) rc=0x%x verified=%d,%d", r.rc, v1, v2);
+        if (r.rc) { t12c_terminate_handle(&b, s.handle); t12c_terminate_handle(&b, so.handle); }
+        t12c_flush_specific(&b, kh, 1);
+    } else T12C_CHECK(0, "could not set up the AUTH2 test%s", "");
     free(blob);
+    t12c_st_noleak(&b, "after NV/counters/keys");
     /* transport */
     Rsp in; uint8_t wr[128];
     rc = t12c_establish_transport(&b, &tr_, 0); T12C_CHECK(rc == 0, "EstablishTransport rc=0x%x handle=0x%x", rc, tr_.handle);
@@ -578,7 +611,31 @@ static int t12c_selftest(void) {
     rc = t12c_st_wrap(&b, &tr_, wr, 59, &in, &v); T12C_CHECK(rc == 0 && v == 1 && in.rc != 0, "wrapped: PcrRead with tag AUTH1 + random trailer: outer rc=0x%x verified=%d inner rc=0x%x", rc, v, in.rc);
     memset(wr, 0, sizeof wr); wr[1] = 0xC1; wr[5] = 12; wr[9] = 0x96;
     rc = t12c_st_wrap(&b, &tr_, wr, 12, &in, &v); T12C_CHECK(rc != 0 && rc != T12C_BAD, "wrapped: Terminate_Handle with 2 of 4 handle bytes rc=0x%x", rc);
-    if (tr_.live) { t12_begin(&ib, T12_TAG0, 0xF1); b_put32(&ib, 2, (uint32_t)ib.n); rc = t12c_execute_transport(&b, &tr_, ib.p, (uint32_t)ib.n, 0, 0, &in, &v); T12C_CHECK(rc == 0 && v == 1 && !tr_.live, "ExecuteTransport continue=0 closes the session rc=0x%x", rc); }
+    t12_begin(&ib, T12_TAG0, 0xF1); b_put32(&ib, 2, (uint32_t)ib.n);
+    if (!tr_.live) t12c_establish_transport(&b, &tr_, 0);
+    rc = t12c_execute_transport(&b, &tr_, ib.p, (uint32_t)ib.n, 0, 0, &in, &v); T12C_CHECK(rc == 0 && v == 1 && !tr_.live, "ExecuteTransport continue=0 closes the session rc=0x%x verified=%d", rc, v);
+    tr_.live = 1; rc = t12c_execute_transport(&b, &tr_, ib.p, (uint32_t)ib.n, 1, 0, &in, &v); T12C_CHECK(rc == 0x22, "closed transport handle refused rc=0x%x", rc);
+    /* a logging session: the key-handle paths of ExecuteTransport (public key digests of the wrapped command's keys) */
+    rc = t12c_establish_transport_attr(&b, &tr_, T12C_TRANSPORT_LOG); T12C_CHECK(rc == 0, "EstablishTransport(LOG) rc=0x%x", rc);
+    t12_begin(&ib, T12_TAG0, 0x0B); b_u16(&ib, T12C_ET_KEYHANDLE); b_u32(&ib, T12C_KH_SRK); t12c_rand(wr, 20); b_bytes(&ib, wr, 20); b_put32(&ib, 2, (uint32_t)ib.n);
+    rc = t12c_execute_transport(&b, &tr_, ib.p, (uint32_t)ib.n, 1, 0, &in, &v); T12C_CHECK(rc == 0 && v == 1 && in.rc == 0, "LOG: ExecuteTransport(OSAP on the SRK) rc=0x%x inner=0x%x verified=%d", rc, in.rc, v);
+    if (rc == 0 && in.rc == 0 && in.len == 54) {
+        uint32_t ah = g32(in.p + 10);
+        t12_begin(&ib, T12_TAG0, 0xBA); b_u32(&ib, ah); b_u32(&ib, 2); b_put32(&ib, 2, (uint32_t)ib.n);
+        rc = t12c_execute_transport(&b, &tr_, ib.p, (uint32_t)ib.n, 1, 0, &in, &v); T12C_CHECK(rc == 0 && v == 1 && in.rc == 0, "LOG: ExecuteTransport(FlushSpecific RT_AUTH) [handle special case] rc=0x%x inner=0x%x verified=%d", rc, in.rc, v);
+    }
+    t12_begin(&ib, T12_TAG0, 0x21); b_u32(&ib, T12C_KH_SRK); b_put32(&ib, 2, (uint32_t)ib.n);       /* GetPubKey(SRK) without authorization: the key IS logged first */
+    rc = t12c_st_wrap(&b, &tr_, ib.p, (uint32_t)ib.n, &in, &v); T12C_CHECK(rc == 0 && v == 1 && in.rc != 0, "LOG: ExecuteTransport(GetPubKey SRK, no auth) rc=0x%x inner=0x%x verified=%d", rc, in.rc, v);
+    t12_begin(&ib, T12_TAG0, 0x21); b_u32(&ib, 0x01020304); b_put32(&ib, 2, (uint32_t)ib.n);
+    rc = t12c_st_wrap(&b, &tr_, ib.p, (uint32_t)ib.n, &in, &v); T12C_CHECK(rc != 0 && rc != T12C_BAD, "LOG: wrapped GetPubKey with an unknown key handle rc=0x%x", rc);
+    t12_begin(&ib, T12_TAG0, 0xBA); b_u32(&ib, 0x01020304); b_put32(&ib, 2, (uint32_t)ib.n);
+    if (!tr_.live) t12c_establish_transport_attr(&b, &tr_, T12C_TRANSPORT_LOG);
+    rc = t12c_execute_transport(&b, &tr_, ib.p, (uint32_t)ib.n, 1, 0, &in, &v); T12C_CHECK(rc != 0 && rc != T12C_BAD, "LOG: wrapped FlushSpecific without resourceType rc=0x%x", rc);
+    t12_begin(&ib, T12_TAG0, 0x32); b_u32(&ib, T12C_KH_SRK); b_put32(&ib, 2, (uint32_t)ib.n);
+    if (!tr_.live) t12c_establish_transport_attr(&b, &tr_, T12C_TRANSPORT_LOG);
+    rc = t12c_execute_transport(&b, &tr_, ib.p, (uint32_t)ib.n, 1, 0, &in, &v); T12C_CHECK(rc != 0 && rc != T12C_BAD, "LOG: wrapped CertifyKey with one of two key handles rc=0x%x", rc);
+    if (tr_.live) { rc = t12c_flush_specific(&b, tr_.handle, 4); T12C_CHECK(rc == 0, "FlushSpecific(transport session) rc=0x%x", rc); }
+    t12c_st_noleak(&b, "after the transport tests");
     rc = t12c_establish_transport(&b, &tr_, 1); T12C_CHECK(rc == 0, "EstablishTransport(exclusive) rc=0x%x", rc);
     t12_begin(&ib, T12_TAG0, 0xF1); b_put32(&ib, 2, (uint32_t)ib.n);
     rc = t12c_execute_transport(&b, &tr_, ib.p, (uint32_t)ib.n, 1, 0, &in, &v); T12C_CHECK(rc == 0 && v == 1, "exclusive: ExecuteTransport(GetTicks) rc=0x%x", rc);
